@@ -33,7 +33,7 @@ def rnd(rng, lo=-1.0, hi=1.0, den=16):
     return round(rng.uniform(lo, hi) * den) / den
 
 
-def make_inputs(contract, cfgname, D, P, shape, rng, cell0=None, dtype=float):
+def make_inputs(contract, cfgname, D, P, shape, rng, cell0=None, dtype=float, layout_rng=None):
     """numpy arrays for all array parameters (aliased parameters share one object).  cell0: optional dict
     name -> list of D numbers placed at batch position 0 (a solver counter-model)."""
     import numpy
@@ -64,8 +64,21 @@ def make_inputs(contract, cfgname, D, P, shape, rng, cell0=None, dtype=float):
             pos0 = (0,) * (x.ndim - 1)
             for d in range(D): x[(d,) + pos0] = cell0[a][d]
         contract.native_init(a, x, cfgname)
+        # memory layout must not matter: a good part of the arrays are handed over as NON-CONTIGUOUS views (the tracer does this for
+        # the adjoints of transposed / sliced nodes); `reshape` of such a view silently copies
+        if layout_rng is not None and layout_rng.random() < 0.45: x = _noncontig(x, layout_rng)
         arrs[a] = x
     return arrs
+
+
+def _noncontig(x, rng):
+    import numpy
+    mode = rng.choice(['p-stride', 'last-stride', 'swapped']) if x.ndim >= 4 else (rng.choice(['p-stride', 'last-stride']) if x.ndim == 3 else 'p-stride')
+    if mode == 'p-stride': big = numpy.zeros((x.shape[0], 2 * x.shape[1]) + x.shape[2:], dtype=x.dtype); v = big[:, ::2]
+    elif mode == 'last-stride': big = numpy.zeros(x.shape[:-1] + (2 * x.shape[-1],), dtype=x.dtype); v = big[..., ::2]
+    else: big = numpy.zeros(x.shape[:-2] + (x.shape[-1], x.shape[-2]), dtype=x.dtype); v = numpy.swapaxes(big, -1, -2)
+    v[...] = x
+    return v
 
 
 def call(contract, cfgname, arrs, scal):
@@ -114,7 +127,8 @@ def check_kernel(contract, cfgname, D, P, shape, rng, cell0=None, scal=None, dty
     returns (n_cells_checked, failure or None); failure = dict(input, observed, expected, ...)"""
     import numpy
     scal = dict(scal) if scal is not None else contract.native_scalars(cfgname, rng)
-    arrs = make_inputs(contract, cfgname, D, P, shape, rng, cell0, dtype)
+    import random as _random
+    arrs = make_inputs(contract, cfgname, D, P, shape, rng, cell0, dtype, layout_rng=_random.Random(rng.random()))
     post, pre = call(contract, cfgname, arrs, scal)
     n = 0
     first = next(iter(pre.values()))
